@@ -30,6 +30,10 @@ func Convert(src interface{}, t reflect.Type) (interface{}, error) {
 	if t == nil || t == interfaceType {
 		return src, nil
 	}
+	if src == nil {
+		// nil stands for the zero value of every type, as null does on the wire
+		return reflect.Zero(t).Interface(), nil
+	}
 	t2 := reflect2.Type2(t)
 	p := t2.New()
 	if converter := GetConverter(reflect.TypeOf(src), t); converter != nil {
